@@ -72,6 +72,11 @@ def binop(I, op, a, b):
         return a + b
     if isinstance(a, (list, tuple)) and isinstance(op, ast.Mult):
         return a * concrete_int(b)
+    if isinstance(op, (ast.BitOr, ast.BitAnd)):
+        Bool = sp.logic.boolalg.Boolean
+        if isinstance(a, (bool, Bool)) and isinstance(b, (bool, Bool)):
+            r = (sp.Or if isinstance(op, ast.BitOr) else sp.And)(_b(a), _b(b))
+            return _pb(r)
     if a is None or b is None:
         raise SymRaise("TypeError", f"unsupported operand None for {op.__class__.__name__}")
     if not (_alg(a) or isinstance(a, bool)) or not (_alg(b) or isinstance(b, bool)):
